@@ -1,18 +1,18 @@
 // Harness code: lane P AwkwardForth section -- ForthMachine32/64 as src/python/forth.cpp exposes them.
-// Handle: ForthH* (the 32-bit machine is also reachable as a std::shared_ptr<ForthMachine32>* for
+// Handle: AkpForthH* (the 32-bit machine is also reachable as a std::shared_ptr<ForthMachine32>* for
 // LayoutBuilder.connect, see akp_forth_sharedptr32).
 #include "akb_p.h"
 #include "awkward/forth/ForthMachine.h"
 #include "awkward/forth/ForthInputBuffer.h"
 #include "awkward/forth/ForthOutputBuffer.h"
 
-struct ForthH {
+struct AkpForthH {
   int is64;
   std::shared_ptr<ak::ForthMachine32> m32;
   std::shared_ptr<ak::ForthMachine64> m64;
   std::map<std::string, std::shared_ptr<ak::ForthInputBuffer>> pending_inputs;
 };
-#define FH(h) (reinterpret_cast<ForthH*>(h))
+#define FH(h) (reinterpret_cast<AkpForthH*>(h))
 #define FM(h, EXPR)                                   \
   if (FH(h)->is64) { auto& m = *FH(h)->m64; EXPR; }   \
   else { auto& m = *FH(h)->m32; EXPR; }
@@ -21,7 +21,7 @@ AKB_EXPORT void* akp_forth_new(int is64, const char* source, int64_t n, int64_t 
                                int64_t output_initial_size, double output_resize_factor) {
   AKP_TRY
   std::string src(source, (size_t)n);
-  ForthH* h = new ForthH();
+  AkpForthH* h = new AkpForthH();
   h->is64 = is64;
   try {
     if (is64) h->m64 = std::make_shared<ak::ForthMachine64>(src, stack_size, recursion_depth, output_initial_size,
